@@ -116,6 +116,18 @@ CHECKS = {
         "(paginated-search, scroll-search). Extracted values must equal those of a full parse. 4 recorded findings (known_findings.json).",
         "Trusted: json.loads, the generators. Inputs exhibiting a recorded finding's feature cannot reveal a second defect on the same input.",
     ),
+    "C18": (
+        "model_checking",
+        "stateless exploration of the real request-context code on a virtual asyncio loop: all context trees of a grammar x all orders of "
+        "simultaneously due callbacks (deviation-bounded), plus the real Composite runner and two concurrent clients over the simulated node",
+        "DESIGN.md §4 C18",
+        "L1: ~16k trees of nested contexts (sequential/concurrent children, idle time after the last request, failing requests) through the "
+        "real RequestContextHolder/Manager; L2: 8 stream structures x 4^3 sub-operation kinds x 3 connection limits through the real "
+        "Composite/RequestTiming/raw-request/sleep runners and the real Rally async client; L3: pairs of composites on two clients in one "
+        "loop. Every tie between timers due at the same virtual instant is a choice point (bound 1 quick, 2 thorough). Each context must "
+        "record exactly the span of the requests below it; each sub-request timing exactly its own request; clients never influence each other.",
+        "Trusted: mc/vloop.py (virtual loop), mc/fakees.py (simulated node, 70 lines). Real sockets / aiohttp are replaced by the simulated node.",
+    ),
 }
 
 NOT_YET = {}
